@@ -1,5 +1,6 @@
 import Tickit.Proof.WinInput
 import Tickit.Proof.WinInputSafe
+import Tickit.Proof.WinInputDeliver
 import Tickit.Gen.WinInputCfg
 /-
   C14 — Input reaches the front-most eligible window first, in its own coordinates.
@@ -25,11 +26,18 @@ import Tickit.Gen.WinInputCfg
                                                                      `next_freed_ub_counterexample`, `claim_withdrawn_counterexample`,
                                                                      `hidden_descendant_counterexample`
          the repaired code on the same histories ................... `repaired_*` below
-         the repaired code, every state and every behaviour table whose handlers close, unref, ref, hide, show or
-         change steal-input (no restack request pending) ........... `mutation_safe` (no undefined behaviour, and the
+         the repaired code, every state that satisfies the store invariant and every behaviour table (handlers that
+         close, unref, ref, hide, show, change steal-input, restack, take focus; restack requests may be pending)
+         ........................................................... `mutation_safe` (no undefined behaviour, and the
                                                                      store invariant `AInv` is re-established)
-         the general statement (also restacking and take_focus from inside handlers, pending restack requests,
-         every reachable state) .................................... `mutation_safe_full` (def, open: see engines.d/C14.json)
+         every state the engine can reach (window creation, bindings, application actions, flushes, events)
+         ........................................................... `reachable_good`, `mutation_safe_full`
+         delivery to the windows a mutation does not affect: handlers that close, unref, hide, show or change
+         steal-input of windows of a set `A` closed under descendants (and restack or ref anything, and take the
+         focus inside `A` when `A` is a union of top-level subtrees that holds the focus chain): the windows
+         outside `A` are offered the event in the reference order of the tree as it was when the dispatch began
+         ........................................................... `delivery_unaffected_key`, `delivery_unaffected_mouse`,
+                                                                     `delivery_unaffected_persists` (whole events, histories)
 -/
 namespace Tickit.Props.C14
 open Tickit Tickit.WinTree Tickit.WinInput
@@ -433,6 +441,11 @@ def opMouse (cfg : Cfg) (ev : Ev) : St → Option St := fun s =>
   | .ok s' => some s'
   | _ => none
 
+def opFlush : St → Option St := fun s =>
+  match flushSt s with
+  | .ok s' => some s'
+  | .ub _ => none
+
 def decl : Entry := { ret := false }
 def claim : Entry := { ret := true }
 def doing (ret : Bool) (a : Act) (w : WinTree.Id) : Entry := { ret := ret, actions := [⟨a, w⟩] }
@@ -548,20 +561,12 @@ inductive Reachable : St → Prop where
   | key {st st' : St} (ev : Ev) : Reachable st → emitKey Cfg.repaired st ev = Out.ok st' → Reachable st'
   | mouse {st st' : St} (ev : Ev) : Reachable st → emitMouse Cfg.repaired st ev = Out.ok st' → Reachable st'
 
-/-- **mutation_safe**, the full statement (open; see `open_statements` in engines.d/C14.json): in no reachable state
-    does a key or mouse event make the repaired code touch freed memory, dereference NULL or abort — whatever the
-    handlers close, unref, hide, restack, focus or steal.  (Delivery to the windows a mutation does not affect is
-    the run-time oracle of Driver/Input.lean; the static case is `key_order` / `mouse_target`.) -/
-def mutation_safe_full : Prop :=
-  ∀ (st : St), Reachable st → ∀ (ev : Ev),
-    (emitKey Cfg.repaired st ev).isUb = false ∧ (emitMouse Cfg.repaired st ev).isUb = false
-
-/-- **mutation_safe** (covered mutations).  Take any application state that satisfies the store invariant `AInv`
-    with no dispatcher reference outstanding — children and parent pointers agree, focus pointers point to children,
-    no duplicates, closed windows are detached, the drag source is live, every live window's reference count is what
-    the application owns, a window the application let go of has no children, nothing is queued for restacking —
-    and any behaviour tables whose handlers close, unref, ref, hide, show or change steal-input of any windows
-    (`TableOK`; subject to the application rules of the harness).  Then a key or mouse event never makes the repaired
+/-- **mutation_safe** (any state satisfying the invariant).  Take any application state that satisfies the store
+    invariant `AInv` with no dispatcher reference outstanding — children and parent pointers agree, focus pointers
+    point to children, no duplicates, closed windows are detached, the drag source is live, every live window's
+    reference count is what the application owns, a window the application let go of has no children, every queued
+    restack request names a live window that still hangs below the root — and any behaviour tables (`TableOK` holds of
+    every table: `tableOK_all`; the actions are subject to the application rules of the harness).  Then a key or mouse event never makes the repaired
     routing touch freed memory, dereference NULL or abort: the only non-returning outcomes are the model's own fuel
     running out (`FuelMsg`, `Out.fuel`); and when it returns, the state satisfies the invariant again, so the next
     event is covered too. -/
@@ -585,9 +590,9 @@ theorem mutation_safe_actions (st : St) (a : Action) (hinv : AInv st []) (ha : A
   · intro w hw; rw [hw] at h; exact h
   · intro st' hs; rw [hs] at h; exact h.1
 
-/-- The application states reached through: a fresh root, new windows (any flags, any live parent), bindings whose
-    handlers use covered actions, covered actions of the application itself, and key and mouse events on the
-    repaired code.  (Of the engine's operations only flush and restacking / take_focus are missing.) -/
+/-- The application states reached through: a fresh root, new windows (any flags, any live parent), bindings,
+    actions of the application itself, and key and mouse events on the repaired code.  (Kept from the stage at which
+    restacking, take_focus and flush were not covered; `Reachable` / `mutation_safe_full` subsume it.) -/
 inductive ReachableCovered : St → Prop where
   | fresh (lines cols : Int) : ReachableCovered (newSt lines cols)
   | win {st st' : St} {id : WinTree.Id} (p : WinTree.Id) (r : Rect) (a b c d : Bool) :
@@ -633,6 +638,149 @@ theorem mutation_safe_histories {st : St} (h : ReachableCovered st) (ev : Ev) :
     (∀ w, emitMouse Cfg.repaired st ev = Out.ub w → FuelMsg w) := by
   obtain ⟨hinv, htab⟩ := reachable_invariant h
   exact ⟨(mutation_safe st ev hinv htab).1, (mutation_safe st ev hinv htab).2.1⟩
+
+/-- Every state the engine can reach satisfies the store and accounting invariant with no dispatcher reference
+    outstanding: children and parent pointers agree, focus pointers point to children, no duplicates, closed windows are
+    detached, parents were created before their children, window 0 is the one root, every queued restack request
+    names a live window that knows its parent and still hangs below the root, the drag source is live, and every live
+    window's reference count is what the application owns. -/
+theorem reachable_good {st : St} (h : Reachable st) : AInv st [] := by
+  have key : Good [] st := by
+    induction h with
+    | fresh l c => exact newSt_good l c
+    | @win st st' id p r a b c d _ hn ih =>
+      have := newWin_good ih (newWin_alive hn) r a b c d
+      rw [hn] at this
+      exact this
+    | bind w k es _ ih => exact addBinding_good ih w k es (fun _ _ a _ => actOK_all a)
+    | act a _ hd ih =>
+      have := doAction_safe ih.1 (actOK_all a)
+      rw [hd] at this
+      exact ⟨this.1, tableOK_all _⟩
+    | flush _ hf ih =>
+      have := flushSt_good ih
+      rw [hf] at this
+      exact this
+    | key ev _ he ih =>
+      have := (emit_safe ih ev).1
+      rw [he] at this
+      exact this
+    | mouse ev _ he ih =>
+      have := (emit_safe ih ev).2
+      rw [he] at this
+      exact this
+  exact key.1
+
+/-- **mutation_safe**, the full statement: in no reachable state does a key or mouse event make the repaired code
+    touch freed memory, dereference NULL or abort — whatever the handlers close, unref, hide, restack, focus or
+    steal, whatever restack requests are pending, whatever was flushed in between.  The only `ub` outcomes the model
+    can still produce are the five messages of `FuelMsg`, which the model emits when its *own* recursion fuel runs
+    out (parent chain, focus chain, destroy recursion, the two rectangle-set loops on the damage set): artefacts of
+    the model, not behaviours of the C code.  (Delivery to the windows a mutation does not affect:
+    `delivery_unaffected` below and the run-time oracle of Driver/Input.lean.) -/
+theorem mutation_safe_full : ∀ (st : St), Reachable st → ∀ (ev : Ev),
+    (∀ w, emitKey Cfg.repaired st ev = Out.ub w → FuelMsg w) ∧
+    (∀ w, emitMouse Cfg.repaired st ev = Out.ub w → FuelMsg w) := by
+  intro st h ev
+  have hinv := reachable_good h
+  exact ⟨(mutation_safe st ev hinv (tableOK_all _)).1, (mutation_safe st ev hinv (tableOK_all _)).2.1⟩
+
+/-- The application's own operations never reach an undefined behaviour either, in any reachable state: every
+    action of the vocabulary (subject to the harness rules of `allowed`) and `tickit_window_flush`. -/
+theorem mutation_safe_full_operations : ∀ (st : St), Reachable st →
+    (∀ (a : Action) (w : String), doAction st a = Res.ub w → FuelMsg w) ∧ (∀ w, flushSt st = Res.ub w → FuelMsg w) := by
+  intro st h
+  have hinv := reachable_good h
+  constructor
+  · intro a w hw
+    have := doAction_safe hinv (actOK_all a)
+    rw [hw] at this; exact this
+  · intro w hw
+    have := flushSt_good ⟨hinv, tableOK_all _⟩
+    rw [hw] at this; exact this
+
+
+/-! ### delivery to the windows a mutation does not affect -/
+
+/-- **delivery_unaffected (keys).**  Let `A` be a set of windows closed under descendants (`Base`: the store is
+    consistent, children of windows of `A` are in `A`, and no stealing window outside `A` has a front-most sibling
+    in `A`), not containing the root, and let every handler action be confined to `A` (`Conf`: close, unref, hide,
+    show and steal-input act on windows of `A`; restack requests and extra references are unrestricted; `take_focus`
+    acts on a window of `A` and then `A` must be a union of whole top-level subtrees that also holds the root's
+    present focus chain, `FocusOK` — the windows the run-time monitor exempts), in a state that satisfies the store invariant (outside any dispatch).  Then, whatever the handlers do and claim, the windows *outside `A`* are offered a key event in
+    the reference order `keyVisits` of the tree **as it was when the dispatch began**: what is offered outside `A` is a
+    prefix of the reference order outside `A` (also on first occurrences, i.e. against `keyOrder`), and all of it when
+    nobody claims the event.  The store invariant holds again afterwards. -/
+theorem delivery_unaffected_key (A : Aff) (fuel F : Nat) (st st' : St) (ev : Ev) (claimed : Bool) (vs : List WinTree.Id)
+    (hu : Unaffected A st) (hroot : A 0 = false)
+    (h : onTermKey Cfg.repaired fuel st ev = Out.ok (st', claimed)) (hv : keyVisits st.tree F 0 = some vs) :
+    ∃ offered : List WinTree.Id,
+      offWins st'.log = offWins st.log ++ offered ∧
+      fA A offered <+: fA A vs ∧
+      keyOrder st.tree F 0 = some (firstOcc vs) ∧ fA A (firstOcc offered) <+: fA A (firstOcc vs) ∧
+      (claimed = false → fA A offered = fA A vs) ∧ AInv st' [] := by
+  obtain ⟨w0, hw0, hf0, _⟩ := hu.inv.tree.root
+  unfold onTermKey at h
+  obtain ⟨g, ws, off, _, n⟩ := handleKey_sim hu.base fuel st 0 ev [] st' claimed hu.dinv ⟨w0, hw0, hf0⟩ h
+  have m := n hroot F vs hv
+  refine ⟨ws, off, m.1, by simp [keyOrder, hv], ?_, m.2, g.good.1⟩
+  rw [← firstOcc_fA, ← firstOcc_fA]
+  exact firstOcc_prefix m.1
+
+/-- In every state the engine can reach the invariant part of the hypotheses holds by itself (`reachable_good`): what
+    remains to be checked is the closure of `A` under descendants, the side condition on stealing windows, and that
+    the handlers' actions are confined to `A`. -/
+theorem unaffected_of_reachable (A : Aff) {st : St} (h : Reachable st) (hd : Down A st.tree)
+    (hs : ∀ (p : WinTree.Id) (w0 : Win) (a : WinTree.Id) (rest : List WinTree.Id), A p = false → st.tree.wins[p]? = some w0 →
+      w0.freed = false → w0.children = a :: rest → A a = true → ∀ c ∈ rest, A c = false → stealAt st.tree c = false)
+    (hc : Conf A st.tree st.binds) : Unaffected A st :=
+  ⟨reachable_good h, ⟨(reachable_good h).tree, hd, hs⟩, hc⟩
+
+/-- **delivery_unaffected (mouse).**  Under the same hypotheses a mouse event dispatched to a window `win` outside
+    `A` (the root for the event itself, the drag source for DRAG_STOP / DRAG_OUTSIDE) is offered to the windows
+    outside `A` in the order of `mouseVisits` on the tree as it was when the dispatch began — front-most window under
+    the pointer (or stealing) first — up to the first claim, and to all of them when nobody claims. -/
+theorem delivery_unaffected_mouse (A : Aff) (fuel F : Nat) (st st' : St) (win : WinTree.Id) (ev : Ev) (r : Option WinTree.Id)
+    (vs : List (WinTree.Id × Ev)) (hu : Unaffected A st) (hwin : A win = false) (hal : Alive st.tree win)
+    (h : handleMouse Cfg.repaired fuel st win ev = Out.ok (st', r)) (hv : mouseVisits st.tree F win ev = some vs) :
+    ∃ offered : List WinTree.Id,
+      offWins st'.log = offWins st.log ++ offered ∧
+      fA A offered <+: fA A (vs.map (·.1)) ∧
+      (r = none → fA A offered = fA A (vs.map (·.1))) ∧ AInv st' (heldR r []) := by
+  obtain ⟨g, ws, off, _, n⟩ := handleMouse_sim hu.base fuel st win ev [] st' r hu.dinv hal h
+  have m := n hwin F vs hv
+  refine ⟨ws, off, m.1, ?_, g.good.1⟩
+  intro hr; subst hr; exact m.2 rfl
+
+/-- **The hypotheses persist.**  After a whole key event, and after a whole mouse event — with all the dispatches
+    `on_term_mouse` makes for it: DRAG_START, DRAG_DROP, DRAG_STOP, the event itself, DRAG_OUTSIDE — the hypotheses of
+    the delivery theorems hold again, of the store as it is then and the same set `A`: every dispatch of a history of
+    events is covered, each against the tree as it was when that dispatch began. -/
+theorem delivery_unaffected_persists (A : Aff) (st st' : St) (ev : Ev) (hu : Unaffected A st) :
+    (emitKey Cfg.repaired st ev = Out.ok st' → Unaffected A st') ∧
+    (emitMouse Cfg.repaired st ev = Out.ok st' → Unaffected A st') := by
+  obtain ⟨w0, hw0, hf0, _⟩ := hu.inv.tree.root
+  constructor
+  · intro h
+    unfold emitKey onTermKey at h
+    obtain ⟨⟨st1, handled⟩, h1, h⟩ := out_bind_eq_ok.1 h
+    obtain ⟨g, _⟩ := handleKey_sim hu.base _ st 0 ev [] st1 handled hu.dinv ⟨w0, hw0, hf0⟩ h1
+    simp only [out_pure, Out.ok.injEq] at h
+    subst h
+    have g' := g.unaffected hu.base
+    cases handled with
+    | true => exact g'
+    | false => exact g'.say _
+  · intro h
+    unfold emitMouse at h
+    obtain ⟨⟨st1, handled⟩, h1, h⟩ := out_bind_eq_ok.1 h
+    have g := (onTermMouse_po hu.base _ ev hu.dinv).run (st1, handled) h1
+    simp only [out_pure, Out.ok.injEq] at h
+    subst h
+    have g' := DInv.unaffected hu.base g
+    cases handled with
+    | true => exact g'
+    | false => exact g'.say _
 
 /-! ### the hypotheses of the theorems above are met by real histories (non-vacuity) -/
 
@@ -771,5 +919,174 @@ example :
 /-- `mutation_safe_full`: reachable states exist, beyond the fresh one, and events return in them. -/
 example : ∃ st, Reachable st ∧ st.tree.wins.size = 2 :=
   ⟨_, Reachable.win (id := 1) 0 ⟨0, 0, 2, 2⟩ false false false false (Reachable.fresh 5 8) rfl, rfl⟩
+
+namespace Scenario
+
+/-- An engine operation that leads from reachable states to reachable states. -/
+def StepR (f : St → Option St) : Prop := ∀ s s', Reachable s → f s = some s' → Reachable s'
+
+theorem stepR_win (p : WinTree.Id) (r : Rect) (flags : Nat) : StepR (opWin p r flags) := by
+  intro s s' hs h
+  unfold opWin at h
+  split at h
+  · next s1 id hn => cases h; exact Reachable.win p r _ _ _ _ hs hn
+  · cases h
+
+theorem stepR_bind (w : WinTree.Id) (k : Kind) (es : List Entry) : StepR (opBind w k es) := by
+  intro s s' hs h
+  cases h; exact Reachable.bind w k es hs
+
+theorem stepR_act (a : Act) (w : WinTree.Id) : StepR (opAct a w) := by
+  intro s s' hs h
+  unfold opAct at h
+  split at h
+  · next s1 hd => cases h; exact Reachable.act _ hs hd
+  · cases h
+
+theorem stepR_key (ev : Ev) : StepR (opKey Cfg.repaired ev) := by
+  intro s s' hs h
+  unfold opKey at h
+  split at h
+  · next s1 hd => cases h; exact Reachable.key ev hs hd
+  · cases h
+
+theorem stepR_mouse (ev : Ev) : StepR (opMouse Cfg.repaired ev) := by
+  intro s s' hs h
+  unfold opMouse at h
+  split at h
+  · next s1 hd => cases h; exact Reachable.mouse ev hs hd
+  · cases h
+
+theorem stepR_flush : StepR opFlush := by
+  intro s s' hs h
+  unfold opFlush at h
+  split at h
+  · next s1 hd => cases h; exact Reachable.flush hs hd
+  · cases h
+
+theorem build_reachable : ∀ (ops : List (St → Option St)) (s s' : St), (∀ f ∈ ops, StepR f) → Reachable s →
+    build ops s = some s' → Reachable s' := by
+  intro ops
+  induction ops with
+  | nil => intro s s' _ hs h; cases h; exact hs
+  | cons f rest ih =>
+    intro s s' hall hs h
+    unfold build at h
+    simp only [List.foldl_cons, Option.bind_some] at h
+    cases hf : f s with
+    | none =>
+      rw [hf] at h
+      have : ∀ (l : List (St → Option St)), l.foldl (fun s f => s.bind f) (none : Option St) = none := by
+        intro l; induction l with
+        | nil => rfl
+        | cons _ _ ih' => simpa using ih'
+      rw [this] at h; cases h
+    | some s1 =>
+      rw [hf] at h
+      exact ih s1 s' (fun g hg => hall g (List.mem_cons_of_mem _ hg)) (hall f (List.mem_cons_self ..) s s1 hs hf) h
+
+/-- Windows 1 and 2 on the root, 3 inside 1.  The key handler of 3 restacks 1 and 3 and gives 3 the focus; the mouse
+    handler of 2 claims the press and closes 1 — while the requests for 1 and 3 are still queued. -/
+def restackOps : List (St → Option St) :=
+  [opWin 0 ⟨0, 0, 2, 2⟩, opWin 0 ⟨2, 2, 2, 2⟩, opWin 1 ⟨0, 0, 1, 1⟩,
+   opBind 3 .key [{ ret := false, actions := [⟨.lower, 1⟩, ⟨.focus, 3⟩, ⟨.raiseFront, 3⟩, ⟨.lowerBack, 2⟩] }],
+   opBind 2 .mouse [doing true .close 1],
+   opKey Cfg.repaired key]
+
+theorem restackOps_stepR : ∀ f ∈ restackOps, StepR f := by
+  intro f hf
+  simp only [restackOps, List.mem_cons, List.not_mem_nil, or_false] at hf
+  rcases hf with rfl | rfl | rfl | rfl | rfl | rfl
+  · exact stepR_win _ _ _
+  · exact stepR_win _ _ _
+  · exact stepR_win _ _ _
+  · exact stepR_bind _ _ _
+  · exact stepR_bind _ _ _
+  · exact stepR_key _
+
+def pressOn2 : Ev := { type := evPress, button := 1, line := 2, col := 2 }
+
+end Scenario
+
+open Scenario in
+/-- `mutation_safe_full` is about states like this one: reachable, three restack requests pending (queued by a key
+    handler, which also moved the focus); the next press makes a handler close a queued window together with its queued
+    child, the event returns, and so does the flush that applies what is left of the queue. -/
+example : ∃ st, Reachable st ∧ st.tree.root.changes.length = 3 ∧
+    ∃ st', emitMouse Cfg.repaired st pressOn2 = Out.ok st' ∧ st'.tree.root.changes.length = 1 ∧
+      ∃ st'', flushSt st' = Res.ok st'' ∧ st''.tree.root.changes = [] := by
+  have h : ∃ st, build restackOps (newSt 5 8) = some st ∧ st.tree.root.changes.length = 3 ∧
+      ∃ st', emitMouse Cfg.repaired st pressOn2 = Out.ok st' ∧ st'.tree.root.changes.length = 1 ∧
+        ∃ st'', flushSt st' = Res.ok st'' ∧ st''.tree.root.changes = [] := by
+    have : ((build restackOps (newSt 5 8)).map fun st => (st.tree.root.changes.length,
+        match emitMouse Cfg.repaired st pressOn2 with
+        | .ok st' => (st'.tree.root.changes.length, match flushSt st' with
+            | .ok st'' => some st''.tree.root.changes.length
+            | .ub _ => none)
+        | _ => (99, none))) = some (3, 1, some 0) := by decide +kernel
+    cases hb : build restackOps (newSt 5 8) with
+    | none => rw [hb] at this; simp at this
+    | some st =>
+      rw [hb] at this
+      simp only [Option.map_some, Option.some.injEq, Prod.mk.injEq] at this
+      obtain ⟨h1, h2⟩ := this
+      refine ⟨st, rfl, h1, ?_⟩
+      cases hm : emitMouse Cfg.repaired st pressOn2 with
+      | ub w => rw [hm] at h2; simp at h2
+      | fuel => rw [hm] at h2; simp at h2
+      | ok st' =>
+        rw [hm] at h2
+        simp only [Prod.mk.injEq] at h2
+        obtain ⟨h3, h4⟩ := h2
+        refine ⟨st', rfl, h3, ?_⟩
+        cases hf : flushSt st' with
+        | ub w => rw [hf] at h4; simp at h4
+        | ok st'' =>
+          rw [hf] at h4
+          simp only [Option.some.injEq] at h4
+          exact ⟨st'', rfl, List.eq_nil_of_length_eq_zero h4⟩
+  obtain ⟨st, hb, rest⟩ := h
+  exact ⟨st, build_reachable _ _ _ restackOps_stepR (Reachable.fresh 5 8) hb, rest⟩
+
+open Scenario in
+/-- `delivery_unaffected_*`: the hypotheses hold of the states of the corpus histories with `A` = {window 2} (the
+    window the front-most sibling closes or unreferences from inside its handler), checked by the decidable version
+    `unaffectedCheck`, which is proved sound; and the conclusion is not empty there: the key is offered to 0, 3, 1 —
+    the reference order 0, 3, 2, 1 without window 2. -/
+example :
+    (∃ st, threeSiblingsKey .close = some st ∧ Unaffected (fun x => x == 2) st) ∧
+    (∃ st, threeSiblingsKey .unref = some st ∧ Unaffected (fun x => x == 2) st) ∧
+    (∃ st, threeStackedMouse .close = some st ∧ Unaffected (fun x => x == 2) st) ∧
+    ((threeSiblingsKey .close).map fun s => (keyVisits s.tree 5 0).map (fA (fun x => x == 2))) = some (some [0, 3, 1]) := by
+  have key : ∀ (o : Option St), (o.map fun s => unaffectedCheck (fun x => x == 2) s) = some true →
+      ∃ st, o = some st ∧ Unaffected (fun x => x == 2) st := by
+    intro o h
+    cases o with
+    | none => simp at h
+    | some st =>
+      simp only [Option.map_some, Option.some.injEq] at h
+      exact ⟨st, rfl, unaffectedCheck_sound h⟩
+  exact ⟨key _ (by decide +kernel), key _ (by decide +kernel), key _ (by decide +kernel), by decide +kernel⟩
+
+namespace Scenario
+
+/-- Windows 1 and 2 on the root, 3 inside 2; the key handler of 1 gives 3 the focus and hides 2. -/
+def focusInsideA : Option St :=
+  build [opWin 0 ⟨0, 0, 2, 2⟩, opWin 0 ⟨2, 2, 2, 2⟩, opWin 2 ⟨0, 0, 1, 1⟩,
+         opBind 1 .key [{ ret := false, actions := [⟨.focus, 3⟩, ⟨.hide, 2⟩, ⟨.raise, 1⟩] }],
+         opBind 2 .key [decl], opBind 3 .key [decl], opBind 0 .key [decl]] (newSt 5 8)
+
+end Scenario
+
+open Scenario in
+/-- `delivery_unaffected_key` with `take_focus` inside a handler: `A` = {2, 3}, a whole top-level subtree. -/
+example : ∃ st, focusInsideA = some st ∧ Unaffected (fun x => x == 2 || x == 3) st := by
+  have h : (focusInsideA.map fun s => unaffectedCheck (fun x => x == 2 || x == 3) s) = some true := by decide +kernel
+  cases hb : focusInsideA with
+  | none => rw [hb] at h; simp at h
+  | some st =>
+    rw [hb] at h
+    simp only [Option.map_some, Option.some.injEq] at h
+    exact ⟨st, rfl, unaffectedCheck_sound h⟩
 
 end Tickit.Props.C14
